@@ -25,8 +25,8 @@ import traceback
 from .chooser import Chooser, RandomSource, TapeSource, derive_seed
 
 VERIF = os.path.dirname(os.path.dirname(os.path.abspath(__file__)))
-REPLAYS = os.path.join(VERIF, "replays")
-EVIDENCE = os.path.join(VERIF, "evidence")
+REPLAYS = os.environ.get("VERIF_REPLAY_DIR") or os.path.join(VERIF, "replays")
+EVIDENCE = os.environ.get("VERIF_EVIDENCE_DIR") or os.path.join(VERIF, "evidence")  # overridden only for scratch runs against seeded changes
 KNOWN = os.path.join(VERIF, "known_findings.json")
 PY = sys.executable
 DEFAULT_SEED = 20260926
